@@ -860,6 +860,9 @@ func (g *gen) retEnv(rs *retSite) *env {
 	if len(rs.vals) == 1 {
 		e.vars["result"] = rs.vals[0]
 	}
+	if n := len(rs.vals); n > 0 && rs.vals[n-1].Sort == sErr {
+		e.vars["errResult"] = rs.vals[n-1]
+	}
 	return e
 }
 
